@@ -30,9 +30,11 @@ if [ "$D0" = pass ] && [ "$S" = pass ] && [ "$D1" = FAIL ]; then
   python3 - "$NAME" "$P" "$K" <<'PY'
 import json,sys,subprocess
 name,p,k=sys.argv[1:4]
+import os
+prop=os.environ.get("PROPERTY",p)
 head=subprocess.run(['git','-C','/repo','rev-parse','HEAD'],capture_output=True,text=True).stdout.strip()
 notes=open(f'/verif/seeded/{name}/notes.md').read()
-meta={"property":p,"source":"independent sub-agent given only the property text and a scratch worktree","base_commit":head,
+meta={"property":prop,"source":"independent sub-agent given only the property text and a scratch worktree","base_commit":head,
  "needs_to_manifest":notes[:1500],
  "confirmed":{"demo_on_unchanged_tree":"pass","existing_suite_with_change":"pass","demo_with_change":"FAIL",
    "commands":["git worktree add --detach <scratch> HEAD","go test -vet=off -count=1 -run TestSeeded%sChange%s .  (clean tree)"%(p,k),"git apply patch.diff","go build ./... && go test -vet=off -count=1 ./...","go test -vet=off -count=1 -run TestSeeded%sChange%s ."%(p,k)]},
